@@ -173,7 +173,7 @@ CHECKS = {
     "C06": {
         "text": ("Lean theorems (unbounded): in the abstract sender LTS (any number of workers, any queue discipline, any interleaving, any read split) the DATA "
                  "payloads per id always form a prefix of the file at that STAT index, the whole file once terminated, and only announced regular entries carry "
-                 "data (sender_data; inductive invariant invariant_step); STATs never exceed the view, all are out before the one end marker (sender_stats, one_end_marker); the number of terminators sent for an id is 1 once it is finished and 0 before, never two (one_terminator_per_id). The same LTS runs as the acceptor of the boundary-event log of real Send runs against "
+                 "data (sender_data; inductive invariant invariant_step); STATs never exceed the view, all are out before the one end marker (sender_stats, one_end_marker); the number of terminators sent for an id is 1 once it is finished and 0 before, never two (one_terminator_per_id); content or a terminator for an id implies a request for it earlier in the run (content_only_for_requested). The same LTS runs as the acceptor of the boundary-event log of real Send runs against "
                  "an independent reference receiver (request scripts: subsets, orders, racing the STAT stream, bursts > 132, unknown/non-file/duplicate ids); "
                  "further clauses (STATs = view + one end marker, FIN echo, failure on bad ids, progress callbacks, bytes) are checked on the log."),
         "note": ("Trusted: Lean kernel + standard axioms; payload bytes are compared by the harness's reference receiver (the acceptor replays lengths and order); "
